@@ -47,6 +47,9 @@ impl World for EventWorld {
     fn id(&self) -> u8 {
         3
     }
+    fn shared_wakers(&self) -> bool {
+        true
+    }
     fn name(&self) -> &'static str {
         "event"
     }
@@ -60,7 +63,7 @@ impl World for EventWorld {
         let mut v = Vec::new();
         for flavour in [FL_LOCAL, FL_SYNC, FL_CHECKED] {
             for x in [0u8, 1] {
-                v.push(Cfg { flavour, mode: 0, x, y: 0, k });
+                v.push(Cfg { flavour, mode: 0, x, y: 0, k, sw: 0 });
             }
         }
         v
@@ -68,7 +71,7 @@ impl World for EventWorld {
     fn enum_configs(&self, tier: Tier) -> Vec<(Cfg, usize)> {
         let k = 3;
         let _ = tier;
-        vec![(Cfg { flavour: FL_CHECKED, mode: 0, x: 0, y: 0, k }, 200), (Cfg { flavour: FL_CHECKED, mode: 0, x: 1, y: 0, k }, 200)]
+        vec![(Cfg { flavour: FL_CHECKED, mode: 0, x: 0, y: 0, k, sw: 0 }, 200), (Cfg { flavour: FL_CHECKED, mode: 0, x: 1, y: 0, k, sw: 0 }, 200)]
     }
     fn specs(&self, cfg: &Cfg) -> Vec<OpSpec> {
         vec![
@@ -115,6 +118,7 @@ fn next_where<F>(slots: &[Slot<F>], start: u8, pred: impl Fn(&Slot<F>) -> bool) 
 
 fn run_m<M: RawMutex>(cfg: &Cfg, ops: &[Op], run: &mut Run) {
     tls::reset_history();
+    tls::set_shared_b(cfg.sw == 1);
     let mut model_set = cfg.x == 1;
     let event: GenericManualResetEvent<M> = GenericManualResetEvent::new(model_set);
     let k = cfg.k as usize;
